@@ -59,7 +59,7 @@ CHECKS = {
     ),
     "C12": dict(
         level="fault_enumeration",
-        text="Storage faults are enumerated, schedules sampled: for seeded base inputs (FASTQ single / two-file / interleaved, plain, gzip, multi-member gzip) EVERY truncation offset of every input file and every single-record corruption kind at EVERY record index is applied to the SimFS bytes, and each faulted input is run with the serial runner and with 2-4 simulated workers under a seeded schedule; plus sampled two-fault sequences, gzip bit flips and chunk-boundary-biased buffer sizes. A hang is decided exactly (main unfinished and no task enabled = DEADLOCK). Oracle: malformed (by an independent strict reader / zlib) => non-zero exit and an error message; exit 0 => input well-formed and every record accounted for; outputs after an error hold only complete records, in input order, that are a prefix of the fault-free run.",
+        text="Storage faults are enumerated, schedules sampled: for seeded base inputs (FASTQ single / two-file / interleaved, plain, gzip, multi-member gzip; sampled part also bzip2/xz) EVERY truncation offset of every input file and every single-record corruption kind at EVERY record index is applied to the SimFS bytes, and each faulted input is run with the serial runner and with 2-4 simulated workers under a seeded schedule; plus sampled two-fault sequences, gzip bit flips and chunk-boundary-biased buffer sizes. A hang is decided exactly (main unfinished and no task enabled = DEADLOCK). Oracle: malformed (by an independent strict reader / zlib) => non-zero exit and an error message; exit 0 => input well-formed and every record accounted for; outputs after an error hold only complete records, in input order, that are a prefix of the fault-free run.",
         design="5/C12",
         note="Trusted: simulation kernel and SimFS as for C06; the strict FASTQ reader and stdlib zlib as independent judges of well-formedness; inputs classified 'unspecified' (FASTA bodies, files turned into FASTA by the corruption) are checked for hangs only. No EIO/ENOSPC/signal/worker-kill faults: the property does not speak about them.",
     ),
